@@ -239,7 +239,7 @@ theorem c03_close_with_any_data_queued_partial (ia ib : Seq) (ma mb : U16) (simu
     (rs : List Res) (hma : SPACE_FOR_HEADERS ≤ ma.toNat) (hmb : SPACE_FOR_HEADERS ≤ mb.toNat)
     (h0 : Sys.run {} [.open .A ia ma, if simultaneous then .open .B ib mb else .listen .B ib mb] = .ok (sys0, rs))
     (hrun : PlainRun sys0 s) (h31 : RoomH s) (ta tb : Tcb) (hs : Steady s ta tb)
-    (oa : ta.outgoing.oneshot = []) (qb : tb.outgoing.retransmit = []) (tbt : tb.outgoing.text = [])
+    (qb : tb.outgoing.retransmit = []) (tbt : tb.outgoing.text = [])
     (hne : ta.outgoing.text ≠ []) (n : Nat) (hlen : ta.outgoing.text.length ≤ 65535 * n) :
     ∃ s1 ta1 tb1 s2, closeDataFrontN n s = .ok s1 ∧ FinRun s s1 ∧ s1.a.tcb = some ta1 ∧ s1.b.tcb = some tb1 ∧
       ta1.state = .FinWait2 ∧ tb1.state = .CloseWait ∧ RestX .A ta1 tb1 ∧ RestX .B tb1 ta1 ∧
@@ -249,7 +249,7 @@ theorem c03_close_with_any_data_queued_partial (ia ib : Seq) (ma mb : U16) (simu
       s2.a.submitted = s.a.submitted ∧ s2.b.submitted = s.b.submitted := by
   have hg := good_of_reach ia ib ma mb simultaneous sys0 s rs hma hmb h0 hrun h31
   obtain ⟨s1, ta1, tb1, s2, e1, r1, h1a, h1b, sa, sb, ca, cb, u1, u2, u3, e12, e2, r2, na, nb, v1, v2, v3, v4⟩ :=
-    close_data_any n s hg ta tb hs ⟨oa, tbt, qb⟩ hne hlen
+    close_data_any n s hg ta tb hs ⟨tbt, qb⟩ hne hlen
   have hfr : FinRun sys0 s1 := (FinRun.of_plain hrun).trans r1
   have hlt : C01.Lt31 s1 := by
     have := h31.lt31
@@ -297,7 +297,7 @@ def closeDataCheck2 : Bool :=
     queue and B's one-shot queue are NOT empty), and the schedule, evaluated, ends as promised -/
 example : ∃ sys0 s : Sys, ∃ rs, ∃ ta tb : Tcb,
     Sys.run {} [.open .A 1000 1500, if false then .open .B 5000 1500 else .listen .B 5000 1500] = .ok (sys0, rs) ∧
-    PlainRun sys0 s ∧ RoomH s ∧ Steady s ta tb ∧ ta.outgoing.oneshot = [] ∧ tb.outgoing.retransmit = [] ∧
+    PlainRun sys0 s ∧ RoomH s ∧ Steady s ta tb ∧ tb.outgoing.retransmit = [] ∧
     tb.outgoing.text = [] ∧ ta.outgoing.text ≠ [] ∧ ta.outgoing.text.length ≤ 65535 * 1 ∧
     ta.outgoing.retransmit.length = 1 ∧ tb.outgoing.oneshot.length = 1 := by
   have key : closeDataCheck2 = true := by decide
@@ -313,7 +313,7 @@ example : ∃ sys0 s : Sys, ∃ rs, ∃ ta tb : Tcb,
         simp only [Bool.and_eq_true, List.isEmpty_iff, beq_iff_eq] at k1
         obtain ⟨⟨⟨⟨⟨⟨⟨x1, x2⟩, x3⟩, x4⟩, x5⟩, x6⟩, x7⟩, x8⟩ := k1
         exact ⟨sys0, s, rs, ta, tb, e0, plainRunB_sound _ _ _ e1, ⟨r1, r2⟩,
-          ⟨hta, htb, steadyXB_sound _ _ x1, steadyXB_sound _ _ x2⟩, x3, x4, x5, by rw [x6]; simp,
+          ⟨hta, htb, steadyXB_sound _ _ x1, steadyXB_sound _ _ x2⟩, x4, x5, by rw [x6]; simp,
           by rw [x6]; decide, x7, x8⟩
       · simp at k1
     · simp at key
@@ -321,11 +321,12 @@ example : ∃ sys0 s : Sys, ∃ rs, ∃ ta tb : Tcb,
 
 /-! ## close issued after loss, with data in flight and unsent text queued -/
 
-/-- **Close after loss** (`_partial`: rough starting states with an idle peer; one fair round).  Let `s` be a reachable
-    *rough* state of the closed system (`Lemmas/TcpFullPhase.lean`: both ESTABLISHED, SYN acknowledged, MTU >
-    SPACE_FOR_HEADERS, receive buffers empty, retransmission timers ≤ RTO; **ANY reorder heap on B's side** — segments
-    parked behind the lost data —, ANY one-shot queues; the closer's own reorder heap empty) in which the
-    closer A has **ANYTHING on its retransmission queue** — data segments lost in any number, or received but their ACKs
+/-- **Close after loss** (`_partial`: idle peer, receive buffers read, one fair round).  Let `s` be ANY reachable state
+    of the closed system (MTUs ≥ 100) in which both endpoints are ESTABLISHED and both receive buffers are empty (the
+    applications have read) — NOTHING else is assumed about the closer's queues, the timers, the one-shot queues or **B's
+    reorder heap (segments parked behind the lost data)** (these are the *rough* states of `Lemmas/TcpFullPhase.lean`: SYN
+    acknowledged and timers ≤ RTO hold in every reachable ESTABLISHED state; the closer's own reorder heap is empty because
+    the idle peer has nothing outstanding: invariants (a), (b) of `Props/C01Full.lean`) — in which the closer A has **ANYTHING on its retransmission queue** — data segments lost in any number, or received but their ACKs
     lost, or both — and ANY amount of unsent text (`|unsent| ≤ 65535·n`; none at all is allowed: then `close()` itself
     numbers the FIN, behind the unacknowledged data), and B is idle (`SND.UNA = SND.NXT`, nothing unsent).  A's
     application calls `close()` (FIN-WAIT-1), then the network is fair: `closeLossFrontN n` = `close A`,
@@ -338,10 +339,11 @@ example : ∃ sys0 s : Sys, ∃ rs, ∃ ta tb : Tcb,
     per side from the close to the deletion: `RTO + 1` (the retransmission) `+ 2·MSL + 1` ms — the bound `2·MSL + RTO` of
     DESIGN.md section 8 after the last needed retransmission holds. -/
 theorem c03_close_after_loss_partial (ia ib : Seq) (ma mb : U16) (simultaneous : Bool) (sys0 s : Sys)
-    (rs : List Res) (hma : SPACE_FOR_HEADERS ≤ ma.toNat) (hmb : SPACE_FOR_HEADERS ≤ mb.toNat)
+    (rs : List Res) (hma : 100 ≤ ma.toNat) (hmb : 100 ≤ mb.toNat)
     (h0 : Sys.run {} [.open .A ia ma, if simultaneous then .open .B ib mb else .listen .B ib mb] = .ok (sys0, rs))
-    (hrun : PlainRun sys0 s) (h31 : RoomH s) (ta tb : Tcb) (hc : Full.Rough s ta tb)
-    (hheapA : ta.incoming.segments = [])
+    (hrun : PlainRun sys0 s) (h31 : RoomH s) (ta tb : Tcb) (hta : s.a.tcb = some ta) (htb : s.b.tcb = some tb)
+    (ea : ta.state = .Established) (eb : tb.state = .Established)
+    (ba : ta.incoming.text = []) (bb : tb.incoming.text = [])
     (hub : tb.snd.una = tb.snd.nxt) (tbt : tb.outgoing.text = [])
     (n : Nat) (hlen : ta.outgoing.text.length ≤ 65535 * n) :
     ∃ s1 ta1 tb1 s2, closeLossFrontN n s = .ok s1 ∧ FinRun s s1 ∧ s1.a.tcb = some ta1 ∧ s1.b.tcb = some tb1 ∧
@@ -350,7 +352,34 @@ theorem c03_close_after_loss_partial (ia ib : Seq) (ma mb : U16) (simultaneous :
       releaseTail s1 = .ok s2 ∧ closeLossRoundN n s = .ok s2 ∧ FinRun s s2 ∧ s2.a.tcb = none ∧ s2.b.tcb = none ∧
       s2.b.delivered = s2.a.submitted ∧ s2.a.delivered = s2.b.submitted ∧
       s2.a.submitted = s.a.submitted ∧ s2.b.submitted = s.b.submitted := by
-  have hg := good_of_reach ia ib ma mb simultaneous sys0 s rs hma hmb h0 hrun h31
+  have h50 : SPACE_FOR_HEADERS = 50 := rfl
+  have hma' : SPACE_FOR_HEADERS ≤ ma.toNat := by omega
+  have hmb' : SPACE_FOR_HEADERS ≤ mb.toNat := by omega
+  have hg := good_of_reach ia ib ma mb simultaneous sys0 s rs hma' hmb' h0 hrun h31
+  have hf := finv_of_reach ia ib ma mb simultaneous sys0 s rs hma' hmb' h0 hrun h31
+  have fa := hf.tcb .A ta hta
+  have fb := hf.tcb .B tb htb
+  have ua := (c01_established_syn_acked ia ib ma mb simultaneous sys0 s rs hma' hmb' h0 hrun h31 .A ta hta ea).2.1
+  have ub := (c01_established_syn_acked ia ib ma mb simultaneous sys0 s rs hma' hmb' h0 hrun h31 .B tb htb eb).2.1
+  have hc : Full.Rough s ta tb :=
+    ⟨hta, htb, ⟨ea, ba, ua, by rw [fa.mtu]; show 50 < ma.toNat; omega, fa.tmo⟩,
+      ⟨eb, bb, ub, by rw [fb.mtu]; show 50 < mb.toNat; omega, fb.tmo⟩⟩
+  have hsyncB0 : ta.rcv.nxt = tb.snd.nxt := by
+    have sq := squeeze_facts hg .B tb ta hc.hb hc.ha hc.a.st
+    apply off_inj (base := issOf ia ib .B)
+    have : tb.sent = off (issOf ia ib .B) tb.snd.nxt := by unfold sent; rw [hg.iss_eq .B tb hc.hb]
+    rw [hub] at sq
+    omega
+  have hheapA : ta.incoming.segments = [] := by
+    apply List.eq_nil_iff_forall_not_mem.2
+    intro g hgm
+    have h1 := fa.ahead ea g hgm
+    have h2 := hf.heapSeq .B tb ta htb hta g hgm
+    have h3 : off (issOf ia ib .B) ta.rcv.nxt = tb.sent := by
+      rw [hsyncB0]; unfold sent; rw [hg.iss_eq .B tb hc.hb]
+    have h1' : off (issOf ia ib .B) ta.rcv.nxt < off (issOf ia ib .B) g.hdr.seq := h1
+    have h2' : off (issOf ia ib .B) g.hdr.seq ≤ tb.sent := h2
+    omega
   have hmain : ∃ s1 ta1 tb1 s2, closeLossFrontN n s = .ok s1 ∧ FinRun s s1 ∧
       (s1.side .A).tcb = some ta1 ∧ (s1.side .B).tcb = some tb1 ∧
       ta1.state = .FinWait2 ∧ tb1.state = .CloseWait ∧ RestX .A ta1 tb1 ∧ RestX .B tb1 ta1 ∧
@@ -360,7 +389,6 @@ theorem c03_close_after_loss_partial (ia ib : Seq) (ma mb : U16) (simultaneous :
       (s2.side .A).tcb = none ∧ (s2.side .B).tcb = none ∧
       (s2.side .A).submitted = (s.side .A).submitted ∧ (s2.side .B).submitted = (s.side .B).submitted ∧
       (s2.side .A).delivered = (s.side .A).delivered ∧ (s2.side .B).delivered = (s1.side .B).delivered := by
-    have hf := finv_of_reach ia ib ma mb simultaneous sys0 s rs hma hmb h0 hrun h31
     by_cases hne : ta.outgoing.text = []
     · exact close_inflight_rough n s hg hf ta tb hc hheapA hub tbt hne
     · exact close_after_loss_rough n s hg hf ta tb hc hheapA hub tbt hne hlen
@@ -446,16 +474,6 @@ def roughDataOps : List Op :=
   [.emit .A, .deliver .B 0, .emit .B, .deliver .A 1, .emit .A, .deliver .B 2,
    .write .A [1, 2, 3], .emit .A, .write .A [4, 5], .emit .A, .deliver .B 4, .write .A [6]]
 
-def roughXB (t : Tcb) : Bool :=
-  t.state == .Established && t.incoming.text.isEmpty && t.snd.una != t.snd.iss &&
-  decide (SPACE_FOR_HEADERS < t.mtu.toNat) && decide (t.timeouts.retransmission ≤ RTO)
-
-theorem roughXB_sound (t : Tcb) (h : roughXB t = true) : Full.RoughX t := by
-  unfold roughXB at h
-  simp only [Bool.and_eq_true, beq_iff_eq, List.isEmpty_iff, bne_iff_ne, ne_eq, decide_eq_true_eq] at h
-  obtain ⟨⟨⟨⟨h1, h2⟩, h3⟩, h4⟩, h5⟩ := h
-  exact ⟨h1, h2, h3, h4, h5⟩
-
 def closeRoughCheck : Bool :=
   match Sys.run {} [.open .A 1000 1500, .listen .B 5000 1500] with
   | .ok (sys0, _) =>
@@ -463,7 +481,8 @@ def closeRoughCheck : Bool :=
     | some s =>
       decide (s.a.submitted.length + 2 < 2147483648) && decide (s.b.submitted.length + 2 < 2147483648) &&
       (match s.a.tcb, s.b.tcb with
-        | some ta, some tb => roughXB ta && roughXB tb && ta.incoming.segments.isEmpty &&
+        | some ta, some tb => ta.state == .Established && tb.state == .Established &&
+            ta.incoming.text.isEmpty && tb.incoming.text.isEmpty && ta.incoming.segments.isEmpty &&
             tb.snd.una == tb.snd.nxt && tb.outgoing.text.isEmpty &&
             ta.outgoing.text == [6] && ta.outgoing.retransmit.length == 2 && tb.incoming.segments.length == 1 &&
             s.b.delivered == []
@@ -485,7 +504,9 @@ def closeRoughCheck : Bool :=
     order), and the schedule, evaluated, ends as promised -/
 example : ∃ sys0 s : Sys, ∃ rs, ∃ ta tb : Tcb,
     Sys.run {} [.open .A 1000 1500, if false then .open .B 5000 1500 else .listen .B 5000 1500] = .ok (sys0, rs) ∧
-    PlainRun sys0 s ∧ RoomH s ∧ Full.Rough s ta tb ∧ ta.incoming.segments = [] ∧ tb.snd.una = tb.snd.nxt ∧
+    PlainRun sys0 s ∧ RoomH s ∧ s.a.tcb = some ta ∧ s.b.tcb = some tb ∧
+    ta.state = .Established ∧ tb.state = .Established ∧ ta.incoming.text = [] ∧ tb.incoming.text = [] ∧
+    tb.snd.una = tb.snd.nxt ∧
     tb.outgoing.text = [] ∧ ta.outgoing.text.length ≤ 65535 * 1 ∧ ta.outgoing.retransmit.length = 2 ∧
     tb.incoming.segments.length = 1 ∧ s.b.delivered = [] := by
   have key : closeRoughCheck = true := by decide
@@ -499,9 +520,9 @@ example : ∃ sys0 s : Sys, ∃ rs, ∃ ta tb : Tcb,
       split at k1
       · rename_i ta tb hta htb
         simp only [Bool.and_eq_true, List.isEmpty_iff, beq_iff_eq] at k1
-        obtain ⟨⟨⟨⟨⟨⟨⟨⟨x1, x2⟩, x3⟩, x4⟩, x5⟩, x6⟩, x7⟩, x8⟩, x9⟩ := k1
+        obtain ⟨⟨⟨⟨⟨⟨⟨⟨⟨⟨x1, x2⟩, y1⟩, y2⟩, x3⟩, x4⟩, x5⟩, x6⟩, x7⟩, x8⟩, x9⟩ := k1
         exact ⟨sys0, s, rs, ta, tb, e0, plainRunB_sound _ _ _ e1, ⟨r1, r2⟩,
-          ⟨hta, htb, roughXB_sound _ x1, roughXB_sound _ x2⟩, x3, x4, x5, by rw [x6]; decide, x7, x8, x9⟩
+          hta, htb, x1, x2, y1, y2, x4, x5, by rw [x6]; decide, x7, x8, x9⟩
       · simp at k1
     · simp at key
   · simp at key
